@@ -317,7 +317,8 @@ func HarnessExpiresForms() {
 	var expT time.Time
 	switch form {
 	case 1:
-		h["Expires"] = []string{[]string{"0", "garbage", "Thu, 32 Foo 2026 25:61:00 GMT", "-1", "", " "}[symChoice(6)]}
+		h["Expires"] = []string{[]string{"0", "garbage", "Thu, 32 Foo 2026 25:61:00 GMT", "-1", "", " ",
+			"Thursday, 01-Oct-26 20:05:13 JST", "Thu, 01 Oct 2026 20:05:13 PST"}[symChoice(8)]} // HTTP dates are GMT: another zone name is not a valid date
 	case 2, 3:
 		expT = symTime()
 		h["Expires"] = []string{vTimeString(expT)}
